@@ -311,10 +311,23 @@ class World:
             names = {id(ev): name for name, ev in self.events.items()}
             names.update({id(proc): name for name, proc in self.procs.items()})
             members = []
-            for event in value.keys():
+            keys = list(value.keys())
+            for event in keys:
                 members.append((names.get(id(event), 'timeout'), repr(event.value)))
                 if repr(value[event]) != repr(event.value) or event not in value:
                     members.append(('member not served by [] / in', names.get(id(event))))
+            # the other views of the same mapping: values(), items(), todict(), iteration, ==
+            table = value.todict()
+            if list(map(repr, value.values())) != [repr(event.value) for event in keys] \
+                    or [(id(k), repr(v)) for k, v in value.items()] != [
+                        (id(event), repr(event.value)) for event in keys] \
+                    or [id(event) for event in value] != [id(event) for event in keys] \
+                    or [(id(k), repr(v)) for k, v in table.items()] != [
+                        (id(event), repr(event.value)) for event in keys]:
+                members.append(('views of the condition value disagree', len(keys)))
+            if hasattr(type(value), '__eq__') and type(value).__eq__ is not object.__eq__:
+                if not (value == table) or (keys and value == {}) or not (value == value):
+                    members.append(('condition value does not equal its own dictionary', len(keys)))
             # the value exposes exactly the members fired by then: anything else - also an
             # event that has fired but is no member - is not in it and not served by []
             for name, event in sorted(list(self.events.items()) + list(self.procs.items())):
@@ -1073,7 +1086,93 @@ def inexact_until(case):
     return violations, {'inexact_until_runs': 1}
 
 
+def instant_processes(case):
+    """a process whose generator ends - returns or fails - before its first yield is an event
+    like any other: it fires in the time step in which it was started, with the value returned
+    or the failure raised; whoever waits for it resumes then, an unhandled failure ends the run"""
+    rng = random.Random('%s/%s/c18-instant' % (case['seed'], case['index']))
+    fate = rng.choice(['value', 'none', 'fails', 'fails-unhandled'])
+    started_at = rng.choice([0, 1, 2.5])
+    waiters = rng.randint(1, 3) if fate != 'fails-unhandled' else 0
+    embedded = rng.random() < 0.4
+    log = []
+    holder = {}
+    sess = Session(budget_per_step=20000, budget_total=400000)
+
+    def quick(env):
+        if fate == 'value':
+            return 'early'
+        if fate.startswith('fails'):
+            raise PlainSimErr('early')
+        return
+        yield env.timeout(1)        # (never reached: makes this a generator function)
+
+    def waiter(env, process, number):
+        try:
+            value = yield process
+            log.append((number, 'value', value, env.now))
+        except SIM_ERRORS as err:
+            log.append((number, 'caught', getattr(err, 'tag', None), env.now))
+
+    def starter(env):
+        if started_at:
+            yield env.timeout(started_at)
+        process = env.process(quick(env))
+        holder['process'] = process
+        # (whoever begins to wait *after* a failure happened, in the time step of the failure,
+        # is in a race the statement does not decide: further waiters only for successes)
+        for number in range(1, waiters if fate != 'fails' else 1):
+            env.process(waiter(env, process, number))
+        if waiters:
+            # the usual `value = yield env.process(...)`: waiting before the process starts
+            yield from waiter(env, process, 0)
+        yield env.timeout(3)
+        holder['alive_later'] = process.is_alive
+        log.append(('starter', 'went on', None, env.now))
+
+    def setup(env):
+        env.process(starter(env))
+
+    def standalone():
+        env = usimpy.Environment()
+        setup(env)
+        env.run()
+
+    async def native():
+        env = usimpy.Environment()
+        async with env:
+            setup(env)
+
+    outcome = sess.run(native()) if embedded else sess.run(runner=standalone)
+    violations = [dict(v) for v in sess.violations if v['mechanism'].startswith('kernel-')]
+    what = 'a process that %s before its first yield, started at %r, %d waiting for it (%s)' % (
+        fate, started_at, waiters, 'embedded' if embedded else 'standalone')
+    if fate == 'fails-unhandled':
+        failure = outcome[1] if outcome[0] == 'exc' else None
+        leaves = failure.flattened().children if isinstance(failure, usim.Concurrent) else (failure,)
+        if not any(isinstance(leaf, PlainSimErr) for leaf in leaves):
+            violations.append({'mechanism': 'c18:unhandled-failure-lost',
+                               'msg': '%s: run ended with %r' % (what, outcome[1])})
+    elif outcome[0] != 'ok':
+        violations.append({'mechanism': 'c18:run-failed', 'msg': '%s: %r' % (what, outcome[1])})
+    else:
+        expected = {(number, 'caught', 'early', started_at) if fate == 'fails' else
+                    (number, 'value', 'early' if fate == 'value' else None, started_at)
+                    for number in range(waiters if fate != 'fails' else 1)} | {
+                        ('starter', 'went on', None, started_at + 3)}
+        if set(log) != expected or len(log) != len(expected) or holder.get('alive_later'):
+            violations.append({'mechanism': 'c18:process-log-differs',
+                               'msg': '%s: logged %s (alive afterwards: %r), expected %s' % (
+                                   what, log, holder.get('alive_later'), sorted(expected, key=str))})
+    for vio in violations:
+        vio['case'] = dict(case)
+    return violations, {'instant_processes_followed': 1}
+
+
 def run_case(case):
+    if case['index'] % 20 == 9:
+        violations, extra = instant_processes(case)
+        return {'evals': 1, 'sigs': [], 'stats': extra, 'violations': violations, 'sample': None}
     if case['index'] % 20 == 17:
         violations, extra = inexact_until(case)
         return {'evals': 1, 'sigs': [], 'stats': extra, 'violations': violations, 'sample': None}
